@@ -106,6 +106,18 @@ func c17Issued(id string, ctr uint64) bool {
 	return v >= 1 && v <= ctr && id[0] != '0'
 }
 
+func c17Utoa(v uint64) string {
+	if v == 0 {
+		return "0"
+	}
+	s := ""
+	for v > 0 {
+		s = string([]byte{byte('0' + v%10)}) + s
+		v /= 10
+	}
+	return s
+}
+
 // VerifC17Delta (quick) varies only the parts of the pre-state that the chosen request can
 // observe; VerifC17DeltaFull (thorough) takes the full product.
 func VerifC17Delta()     { verifC17Delta(false) }
@@ -145,8 +157,14 @@ func verifC17Delta(full bool) {
 	}
 	s := NewServer()
 	uri := uris[target]
-	docText := c17DeltaDocs[zzverif.Choice("doc", len(c17DeltaDocs))]
-	s.StoreDocument(uri, docText)
+	// the target document: one of the texts, or not open at all (never opened / closed)
+	docText, open := "", true
+	if d := zzverif.Choice("doc", len(c17DeltaDocs)+1); d < len(c17DeltaDocs) {
+		docText = c17DeltaDocs[d]
+		s.StoreDocument(uri, docText)
+	} else {
+		open = false
+	}
 	s.StoreDocument(uris[other], c17DeltaDocs[3])
 
 	// client state for the target uri; invariant: id == cached id  =>  data == cached data
@@ -159,7 +177,7 @@ func verifC17Delta(full bool) {
 		return 1
 	}
 	if full || req == 1 {
-		idKind = zzverif.Choice("client.id", 5)
+		idKind = zzverif.Choice("client.id", 6)
 	} else {
 		idKind = []int{0, 4, 1}[zzverif.Choice("client.id", 3)]
 	}
@@ -174,15 +192,18 @@ func verifC17Delta(full bool) {
 	case 3: // the id of the OTHER document's cache entry
 		zzverif.Assume(cached[other] != nil)
 		cl = c17Client{id: cached[other].resultID, data: c17SymData("client.data", 5*clientTokens())}
+	case 5: // unknown, but the very id the server hands out next
+		cl = c17Client{id: c17Utoa(ctr + 1), data: c17SymData("client.data", 5*clientTokens())}
 	default: // no previous result
 		cl = c17Client{}
 	}
-	known := []string{"1", "2", "3", "zz", ""}
+	known := []string{"1", "2", "3"} // ids handed out before this request
 
 	// the full data for the current text (reference: a fresh tokenisation, encoded)
-	want := encodeTokens(tokenizeForSemantics(docText))
-	if docText == "" {
-		want = []uint32{}
+	// (no text: the empty array)
+	want := []uint32{}
+	if open && docText != "" {
+		want = encodeTokens(tokenizeForSemantics(docText))
 	}
 	otherBefore := cached[other]
 	td := protocol.TextDocumentIdentifier{URI: uri}
